@@ -44,11 +44,12 @@ def obligations(tier, kf):
     obs.append(Ob('p_relative', {'N': 3, 'D': 2}, 300).mutant('buildpath_not_rerooted'))
     obs.append(Ob('e_exports', {'NO': 4}, 1500, desc='export stack histories of <= 4 operations'))
     if not q:
-        for p0 in range(6):
+        for p0 in range(8):
             obs.append(Ob('e_exports', {'NO': 5, 'P0': p0}, 4000,
                           desc='export stack histories of exactly 5 operations, first op #%d' % p0))
     obs.append(Ob('e_exports', {'NO': 3}, 120).twin())
     obs.append(Ob('e_exports', {'NO': 4}, 600).mutant('exports_shared_dict'))
+    obs.append(Ob('e_exports', {'NO': 4}, 600).mutant('push_path_no_finally'))
     for n in range(1, (3 if q else 4) + 1):
         obs.append(Ob('t_toggle', {'N': n}, 900, desc='toggle naming, |name|==%d' % n))
     obs.append(Ob('t_toggle', {'N': 2}, 120).twin())
